@@ -130,7 +130,7 @@ def _job(form, g, with_headers=True):
     return {"wb": wb, "args": args, "pretty": False}
 
 
-def _form(draw, g_holder):
+def _form(draw, g_holder, force_xlsx=False):
     prof = dict(gen.PROFILES["broad"], max_rows=14, p_or_other=0.25, p_multilang=0.6, p_extra_cols=0.5, p_external=0.08, settings="some",
                 p_extra_sheets=0.2, p_choice_filter=0.3, p_randomize=0.2, p_search=0.05, p_trigger=0.1, p_default=0.2, text_ctl=False,
                 # the same path may be a group in one form and a repeat in the next; few distinct names so that paths coincide across forms
@@ -192,6 +192,29 @@ def _form(draw, g_holder):
                     if g.p("_", 0.6):
                         r[cname] = "v"
         feats.add("invalid-choice-headers")
+    if g.p("_", 0.15):
+        # several near-misses of one optional sheet name: the warning lists them, in workbook order
+        form["extra_sheets"] = g.shuffled(["setting", "settingz", "stetings", "Settings2", "entitie", "entitys", "entites", "surveys"])[: g.integer(2, 5)]
+        if g.p("_", 0.6):
+            form.pop("settings", None)
+        feats.add("misspelled-sheets")
+    if g.p("_", 0.15):
+        form.setdefault("settings", {})["flat"] = "yes"       # legacy setting with form-wide name bookkeeping
+        feats.add("flat")
+    if g.p("_", 0.15) or force_xlsx:
+        # an .xlsx file with typed cells: booleans, and whole numbers stored as floating point (as in workbooks converted from .xls)
+        form["container"] = "xlsx"
+        form["typed_style"] = g.pick(["bool", "float", "both"])
+        for n, _ in model.walk(form["nodes"]):
+            if n["k"] == "q" and "trigger" not in n["c"] and n["c"].get("type", "").split(" ")[0] in ("text", "integer", "decimal"):
+                if g.p("_", 0.5):
+                    n["c"]["required"] = g.pick(["TRUE", "FALSE"])
+                if g.p("_", 0.5) and "calculation" not in n["c"]:
+                    n["c"]["default"] = g.pick(["1", "0", "2"])
+        # a typed cell at the very start of the file and one at its very end: whatever a reader keeps between two files meets there
+        form["nodes"].insert(0, {"k": "q", "c": {"type": "integer", "name": "first_n", "label": "N", "default": g.pick(["1", "0"])}})
+        form.setdefault("settings", {})["auto_send"] = g.pick(["TRUE", "FALSE"])
+        feats.add("xlsx-typed-cells:" + form["typed_style"])
     with_headers = not g.p("_", 0.3)
     if not with_headers:
         feats.add("no-headers")
@@ -214,8 +237,9 @@ def _cases(draw):
     g0 = gen.G(draw, {})
     nforms = g0.integer(2, 4)
     forms = []
+    all_xlsx = g0.p("_", 0.15)      # a batch of spreadsheet files: what the readers keep between files meets the next file
     for _ in range(nforms):
-        f, wh, feats = _form(draw, holder)
+        f, wh, feats = _form(draw, holder, force_xlsx=all_xlsx)
         forms.append({"form": f, "with_headers": wh, "features": feats})
     if g0.p("_", 0.2):
         # a form that is rejected: its failure must not poison later conversions
@@ -261,8 +285,47 @@ def restyle(wb, style):
     return wb
 
 
+def _floats_spelled_out(data: bytes) -> bytes:
+    """whole numbers stored as '1.0' rather than '1' (what a workbook converted from .xls holds): the reader then sees a float"""
+    import io
+    import re
+    import zipfile
+
+    src = zipfile.ZipFile(io.BytesIO(data))
+    buf = io.BytesIO()
+    with zipfile.ZipFile(buf, "w", zipfile.ZIP_DEFLATED) as dst:
+        for item in src.infolist():
+            raw = src.read(item.filename)
+            if item.filename.startswith("xl/worksheets/sheet"):
+                txt = raw.decode("utf-8")
+                txt = re.sub(r'(<c r="[A-Z]+[0-9]+"(?: s="[0-9]+")?(?: t="n")?>\s*<v>)(-?[0-9]+)(</v>)', r"\g<1>\g<2>.0\g<3>", txt)
+                raw = txt.encode("utf-8")
+            dst.writestr(item, raw)
+    return buf.getvalue()
+
+
 def mkjob(fd, pretty=False):
     form = fd["form"]
+    if form.get("container") == "xlsx":
+        from vf import render
+        style = form.get("typed_style", "both")
+        typed = {}
+        for name, head, rows in render.sheets_of(form):
+            if name.lower() == "settings":
+                for i, r in enumerate(rows):
+                    if style in ("bool", "both") and r.get("auto_send") in ("TRUE", "FALSE"):
+                        typed[(name, i, "auto_send")] = r["auto_send"] == "TRUE"
+            if name.lower() != "survey":
+                continue
+            for i, r in enumerate(rows):
+                for h, v_ in r.items():
+                    if style in ("bool", "both") and h in ("required", "readonly") and v_ in ("TRUE", "FALSE"):
+                        typed[(name, i, h)] = v_ == "TRUE"
+                    if style in ("float", "both") and h == "default" and v_ in ("0", "1", "2"):
+                        typed[(name, i, h)] = float(v_)
+        args = {k: v for k, v in form.get("args", {}).items() if k in ("form_name", "default_language")}
+        return {"wb_hex": _floats_spelled_out(render.to_xlsx(form, typed=typed)).hex(), "file_type": ".xlsx", "args": args, "pretty": bool(pretty)}
+
     wb = model.to_workbook_dict(form, with_headers=fd.get("with_headers", True))
     if form.get("colon_style"):
         wb = restyle(wb, form["colon_style"])
